@@ -304,6 +304,7 @@ func runC06(r *mc.Run) {
 	}
 	c06Histories(r, shapes[0])
 	c06UnsignedDates(r)
+	c06TwoDigitYears(r)
 	for _, s := range shapes {
 		// candidate values per field
 		type tv struct {
@@ -594,6 +595,45 @@ func offFields(f []int) string {
 // nextUpdate (absent / null), or states one that has passed, accompanied by unsigned look-alike members (other
 // capitalisation of the member name, before or after the signed one; an unsigned top-level nextUpdate) that state a
 // date far in the future: never in date. The complete signed document next to the same look-alikes is the control.
+// c06TwoDigitYears: CRLs whose nextUpdate is a UTCTime with a year of 50..99 — by RFC 5280 that is 19YY, decades in
+// the past (and before the list's own thisUpdate; issuing tools do not check) — and, as controls, the last instants a
+// UTCTime can express in this century. Lists of 1951, 1987 and 1999 are expired in 2030.
+func c06TwoDigitYears(r *mc.Run) {
+	n := 0
+	for _, which := range []string{"pck-crl", "root-crl"} {
+		for _, nu := range []struct {
+			text  string
+			stale bool
+		}{{"510101000000Z", true}, {"870601120000Z", true}, {"991231235959Z", true}, {"500101000000Z", true}, {"491231235959Z", false}, {"300201000000Z", false}, {"291231235959Z", true}, {"000101000000Z", true}} {
+			id := fmt.Sprintf("two-digit-years/%s/nextUpdate=%s", which, nu.text)
+			if !r.Want(id) {
+				continue
+			}
+			n++
+			w := world.Honest("T")
+			if which == "pck-crl" {
+				w.PckCrl = world.RedateCRL(world.MakeCRL(world.CRLSpec{Issuer: w.PKI.Inter, Signer: w.PKI.InterKey}), w.PKI.InterKey, nu.text)
+			} else {
+				w.RootCrl = world.RedateCRL(world.MakeCRL(world.CRLSpec{Issuer: w.PKI.Root, Signer: w.PKI.RootKey}), w.PKI.RootKey, nu.text)
+			}
+			w.Finish()
+			err := verifyRawBoth(r, id, w.Raw(), w.Options(world.L2))
+			out := verdict(err)
+			switch {
+			case world.IsPanic(err):
+			case nu.stale && err == nil:
+				r.Violate("two-digit-years:expired-crl-accepted:"+which, id, "quote accepted at 2030-01-01 although the "+which+"'s nextUpdate is "+nu.text+" (UTCTime: years 50..99 are 19YY)", nil)
+				out = "accept!"
+			case !nu.stale && err != nil:
+				r.Violate("two-digit-years:in-date-crl-rejected:"+which, id, "quote rejected although the "+which+" (nextUpdate "+nu.text+") is in date: "+errStr(err), nil)
+				out = "reject!"
+			}
+			r.Eval(id, true, "two-digit-years:"+out)
+		}
+	}
+	r.SectionDone(mc.Section{Name: "two-digit-years", Evaluations: int64(n), Exhaustive: true})
+}
+
 func c06UnsignedDates(r *mc.Run) {
 	w := world.Honest("T")
 	type docSel struct {
